@@ -392,11 +392,13 @@ func (obj *SparseInt16Vector) Permute(pi []int) error {
   if len(pi) != obj.n {
     return errors.New("Permute(): permutation vector has invalid length!")
   }
-  // permute vector
   for i := 0; i < obj.n; i++ {
     if pi[i] < 0 || pi[i] >= obj.n {
       return errors.New("Permute(): invalid permutation")
     }
+  }
+  // permute vector
+  for i := 0; i < obj.n; i++ {
     if i != pi[i] && pi[i] > i {
       // permute elements
       _, ok1 := obj.values[i]
